@@ -98,7 +98,11 @@ fn gen_profile(profile: &str, seed: u64, n: usize, thorough: bool, out: &mut Out
                                 if !small && !thorough && vw && f.is_some() {
                                     continue; // quick tier: thin out the 5-row sets
                                 }
-                                out.script(&gen::gen_c10(base, &p, q, f, vw, "rows"));
+                                out.script(&gen::gen_c10(base, &p, q, f, vw, "rows", 0));
+                                if small && base.len() >= 2 && !vw {
+                                    // digest comparison must be order-independent too
+                                    out.script(&gen::gen_c10(base, &p, q, f, vw, "rows", 1));
+                                }
                             }
                         }
                     }
@@ -125,7 +129,8 @@ fn gen_profile(profile: &str, seed: u64, n: usize, thorough: bool, out: &mut Out
                     r.shuffle(&mut vals);
                     p = vals.chunks(ncols).map(|c| c.to_vec()).collect();
                 }
-                out.script(&gen::gen_c10(&rows, &p, q, f, vw, pk));
+                let thr = *r.pick(&[0usize, 0, 1, 3, 10, 1000]);
+                out.script(&gen::gen_c10(&rows, &p, q, f, vw, pk, thr));
             }
         }
         "c11" => {
